@@ -264,6 +264,51 @@ theorem element_tree_dup_counterexample :
   revert this
   decide +kernel
 
+
+/-! ## element_tree: what holds for ALL inputs
+
+`element_tree_once` is false for the code as it is (recorded finding). Two statements that are
+true for every overlap decision, every heading/list/paragraph list, and say exactly how far the
+tree is from conserving: -/
+
+/-- the balance of the element tree: the elements together with the suppressed paragraphs show
+what the headings, the lists and all paragraphs show. Whatever is lost is in a suppressed
+paragraph and in no heading/list; whatever is repeated is in a heading/list and in a paragraph
+that was not suppressed. -/
+theorem element_tree_balance (ov : Box → Box → Bool) (hs ls ps : List Elem) :
+    (idsOf (elementTree ov hs ls ps) ++ idsOf (ps.filter (consumed ov hs ls))).Perm
+      (idsOf (hs ++ ls) ++ idsOf ps) := by
+  unfold elementTree idsOf
+  rw [List.flatMap_append, List.append_assoc]
+  refine List.Perm.append_left _ ?_
+  have h2 : ((ps.filter (consumed ov hs ls)) ++ ps.filter (fun p => !consumed ov hs ls p)).Perm ps :=
+    List.filter_append_perm _ ps
+  have h3 := h2.flatMap_right (·.ids)
+  rw [List.flatMap_append] at h3
+  exact List.perm_append_comm.trans h3
+
+/-- `element_tree_once_partial` is sharp: the tree conserves the fragment ids IF AND ONLY IF the
+headings and lists show exactly the fragments of the suppressed paragraphs. -/
+theorem element_tree_once_iff (ov : Box → Box → Bool) (hs ls ps : List Elem) :
+    (idsOf (elementTree ov hs ls ps)).Perm (idsOf ps) ↔
+      (idsOf (hs ++ ls)).Perm (idsOf (ps.filter (consumed ov hs ls))) := by
+  constructor
+  · intro h
+    have hb := element_tree_balance ov hs ls ps
+    -- tree ++ C ~ H ++ ps  and  tree ~ ps   ⇒   ps ++ C ~ H ++ ps   ⇒   C ~ H
+    have h1 : (idsOf ps ++ idsOf (ps.filter (consumed ov hs ls))).Perm (idsOf (hs ++ ls) ++ idsOf ps) :=
+      (h.symm.append_right _).trans hb
+    have h2 : (idsOf (ps.filter (consumed ov hs ls)) ++ idsOf ps).Perm (idsOf (hs ++ ls) ++ idsOf ps) :=
+      List.perm_append_comm.trans h1
+    exact ((List.perm_append_right_iff _).mp h2).symm
+  · exact element_tree_once_partial ov hs ls ps
+
+/-- without headings and lists nothing is suppressed and the tree is the paragraph list -/
+theorem element_tree_no_headings (ov : Box → Box → Bool) (ps : List Elem) :
+    elementTree ov [] [] ps = ps := by
+  unfold elementTree consumed
+  simp
+
 /-! ## assemble_conserves -/
 
 /-- `assembleText`: the output has exactly the non-space characters of the fragments -/
